@@ -110,7 +110,7 @@ func (fr *Frame) evalModifies(desigs []string, names map[string]tval, st *State)
 			base := SPtr(x.t)
 			for _, c := range fr.leafCellsOf(sl.Elem()) {
 				c := c
-				fps = append(fps, footprint{key: c.key, vs: w.sortOf(c.typ), cond: func(l Term) Term { return Eq(Obj(l), Obj(base)) }})
+				fps = append(fps, footprint{key: c.key, vs: w.sortOf(c.typ), cond: func(l Term) Term { return And(Eq(Obj(l), Obj(base)), Neq(Obj(base), IntLit(0))) }})
 			}
 		case e.Op == "call" && e.Name == "fields" && len(e.Args) == 1:
 			x, err := ctx.eval(e.Args[0])
@@ -294,6 +294,7 @@ func (fr *Frame) applyContract(ct *Contract, key string, sig *types.Signature, f
 			post.heaps = map[string]Term{}
 			post.layer = nil
 			u.epochAlloc[post.epoch] = a
+			fr.preserveLocals(pre, post)
 		} else {
 			// new layer: untouched heaps agree on old objects
 			post.layer = &heapLayer{prevHeaps: pre.heaps, prevEpoch: pre.epoch, prevLayer: pre.layer, allocOld: pre.alloc, allocNew: a}
